@@ -223,9 +223,12 @@ class TriangularLinearOperator(LinearOperator, _TriangularLinearOperatorBase):
             res = self._tensor.base_linear_op.solve(right_tensor, left_tensor)
             # TODO: Proper broadcasting
             res = res.expand(self._tensor.batch_repeat + res.shape[-2:])
+        elif isinstance(self._tensor, _TriangularLinearOperatorBase):
+            # diagonal / Kronecker-triangular operators solve exactly
+            res = self._tensor.solve(right_tensor=right_tensor)
         else:
-            # TODO: Can we be smarter here?
-            res = self._tensor.solve(right_tensor=right_tensor, left_tensor=left_tensor)
+            # the generic solve of the wrapped operator assumes a symmetric positive definite matrix
+            res = torch.linalg.solve_triangular(self.to_dense(), right_tensor, upper=self.upper)
 
         if squeeze:
             res = res.squeeze(-1)
